@@ -131,7 +131,13 @@ def data_summary(node, scope):
         fmt = fold(node.args[0], scope)
         if not isinstance(fmt, str):
             return None
-        return fmt, [canon(a, scope) for a in node.args[1:]]
+        args = []
+        for a in node.args[1:]:
+            if isinstance(a, ast.Starred) and isinstance(a.value, (ast.Tuple, ast.List)) and not any(isinstance(e, ast.Starred) for e in a.value.elts):
+                args.extend(a.value.elts)             # *(<display>) spreads its elements
+            else:
+                args.append(a)
+        return fmt, [canon(a, scope) for a in args]
     if isinstance(node, (ast.Tuple, ast.List)):
         return 'bytes', [canon(e, scope) for e in node.elts]
     if isinstance(node, ast.BinOp) and isinstance(node.op, ast.Add):
